@@ -9,6 +9,8 @@ slots and from there into API calls; a script's local state holds no id.  The on
 written in the program text are not event ids (`ProgsClosed`; the generator writes integers and `None`).
 -/
 
+set_option linter.unusedSectionVars false
+
 variable {τ : Type} [Num τ]
 
 /-- a value that mentions no event id -/
